@@ -225,6 +225,7 @@ impl Scenario for Spend {
                         match rb {
                             Ok(pb) => {
                                 ctx.probe("race_b_succeeded");
+                                ctx.fault("flow_interleaved@vm_step");
                                 self.check_proposal(&s, ctx, &pb, a, owner_b, None, &live, &locks, &ctl, target, true)?;
                                 let inputs: BTreeSet<NoteKey> = inputs_of(&pb).into_iter().map(|x| x.0).collect();
                                 for k in &inputs {
@@ -240,6 +241,7 @@ impl Scenario for Spend {
                                 ctx.shape("race_b_err");
                                 if e.contains("locked") || e.contains("busy") || e.contains("Locked") {
                                     ctx.probe("busy_seen");
+                                    ctx.fault("interleaved_flow_refused_busy");
                                 }
                             }
                         }
@@ -286,8 +288,12 @@ impl Scenario for Spend {
                         let i = cands[ch.idx("which", cands.len())];
                         let a = live[i].acct;
                         let usk = acct_keys(&s.net, a as u32).usk.clone();
-                        let expiry_delta = *ch.pick("expiry", &[40u32, 2, 5]);
-                        let exp = target + expiry_delta;
+                        // expiry height 0 disables expiry: such a pending transaction never stops spending its inputs
+                        let expiry_delta = *ch.pick("expiry", &[40u32, 2, 5, 0]);
+                        let (exp_arg, exp) = if expiry_delta == 0 { (0, u32::MAX) } else { (target + expiry_delta, target + expiry_delta) };
+                        if expiry_delta == 0 {
+                            ctx.probe("pending_tx_without_expiry");
+                        }
                         let r = {
                             let net = s.net;
                             let mut d = db!(s);
@@ -300,7 +306,7 @@ impl Scenario for Spend {
                                     &SpendingKeys::from_unified_spending_key(usk),
                                     OvkPolicy::Sender,
                                     &live[i].proposal,
-                                    Some(BlockHeight::from_u32(exp)),
+                                    Some(BlockHeight::from_u32(exp_arg)),
                                 )
                                 .map_err(|e| format!("{e}"))
                             })
@@ -475,10 +481,10 @@ impl Scenario for Spend {
         ]
     }
     fn expected_probes(&self) -> Vec<&'static str> {
-        vec!["lock_race_lost", "lock_expired", "pending_tx_stored", "pending_tx_expired", "race_b_succeeded"]
+        vec!["lock_race_lost", "lock_expired", "pending_tx_stored", "pending_tx_expired", "race_b_succeeded", "pending_tx_without_expiry"]
     }
     fn fault_kinds(&self) -> Vec<&'static str> {
-        vec![]
+        vec!["flow_interleaved@vm_step", "interleaved_flow_refused_busy"]
     }
     fn time_note(&self) -> &'static str {
         "simulated time = blocks mined (lock windows and transaction expiry are block heights)"
